@@ -485,10 +485,88 @@ func concurrentSingleUpdate(idx int64, r *rand.Rand) {
 	rt.Distinct(fmt.Sprintf("concsingle|%d|%d", n, k))
 }
 
+// concurrentReset: Reset and Add on one instance at the same moment.  Each is atomic in correct code, so afterwards the
+// instance is indistinguishable from one of the two serial orders - a new instance that was handed the sample, or a
+// new instance - bit for bit, for every later operation.
+func concurrentReset(idx int64, r *rand.Rand) {
+	m := genKinds(r)
+	suffix := genOps(r, 3+r.IntN(10), false, false)
+	rounds := 300
+	for round := 0; round < rounds; round++ {
+		inst := m.new()
+		apply(inst, genOps(r, 1+r.IntN(12), false, false))
+		x := float64(1 + r.IntN(1000))
+		var wg sync.WaitGroup
+		// (MinimumMeasurement.Update is, by construction, Add(f(Get())): an identity update re-adds the old value and is not
+		// transparent next to a Reset, so the second device is not used for it)
+		if round%2 == 0 || m.kind == "minimum" {
+			bar := make(chan struct{})
+			wg.Add(2)
+			go func() { defer wg.Done(); <-bar; inst.Reset() }()
+			go func() { defer wg.Done(); <-bar; inst.Add(x) }()
+			close(bar)
+		} else {
+			// Update runs the caller's function under the instance lock: while an identity update is in progress (and
+			// yields), Reset and Add arrive - in either order - and queue up behind it
+			var started atomic.Int32
+			inside := make(chan struct{})
+			wg.Add(3)
+			go func() {
+				defer wg.Done()
+				inst.Update(func(v float64) float64 {
+					close(inside)
+					for i := 0; i < 400 && started.Load() < 2; i++ {
+						runtime.Gosched()
+					}
+					for i := 0; i < 20; i++ {
+						runtime.Gosched()
+					}
+					return v
+				})
+			}()
+			<-inside
+			first, second := func() { inst.Reset() }, func() { inst.Add(x) }
+			if round%4 == 1 {
+				first, second = second, first
+			}
+			go func() { defer wg.Done(); started.Add(1); first() }()
+			for i := 0; i < 5; i++ {
+				runtime.Gosched()
+			}
+			go func() { defer wg.Done(); started.Add(1); second() }()
+		}
+		wg.Wait()
+		got := apply(inst, suffix)
+		t1 := m.new()
+		t1.Add(x)
+		w1 := apply(t1, suffix)
+		w2 := apply(m.new(), suffix)
+		eq := func(a, b []res) bool {
+			for i := range a {
+				if a[i] != b[i] {
+					return false
+				}
+			}
+			return true
+		}
+		rt.Count("concurrent_reset_rounds", 1)
+		if !eq(got, w1) && !eq(got, w2) {
+			rt.Violation("C18/"+m.kind+"/concurrent/reset-overlapping-add-leaves-a-state-neither-order-explains", idx, rt.J{"kind": m.kind, "cfg": m.cfg, "sample": x, "round": round,
+				"suffix": head(suffix), "first_reading": math.Float64frombits(got[0].A), "after_reset_then_add": math.Float64frombits(w1[0].A), "after_add_then_reset": math.Float64frombits(w2[0].A)})
+			return
+		}
+	}
+	rt.Distinct(fmt.Sprintf("creset|%s|%s|%x", m.kind, m.cfg, opsHash(suffix)))
+}
+
 func TestCheck(t *testing.T) {
 	rt.Cases(30000, 3000000, func(idx int64) {
 		r := rt.CaseRand(18, idx)
 		rt.Case()
+		if idx%24 == 2 {
+			concurrentReset(idx, r)
+			return
+		}
 		if idx%6 == 5 {
 			windowCase(idx, r)
 			return
